@@ -177,6 +177,43 @@ def run(tier):
         records.append(rec)
         meta[rec["tid"]] = text
         ck.nontrivial(text)
+    # validation message locations: the fault runs of C07 (documents loaded with include_position=True)
+    from . import c07
+    sub = common.Check("C08", tier, "model_checking", RULE)      # scratch collector: C07's own verdicts are not C08's
+    _, posrecs, _, _ = c07.run_cases(sub, tier, seed + 80, want_positions=True)
+    ck.tlc += sub.tlc
+    nmsg = 0
+    for (j, text, toks, acts, h2, fl2, msgs, blocks) in posrecs:
+        texts = [t.text for t in toks]
+        seps = surface.default_seps(toks)
+        first_tok = {}
+        for ti, t in enumerate(toks):
+            first_tok.setdefault(t.item, ti)
+        obs, missing = [], ""
+        for f in fl2:
+            ti = first_tok.get(f["item"])
+            if ti is None:
+                continue
+            named = [m for m in msgs if m.get("message", "").lower().endswith(" " + f["name"])]
+            for m in named[:1] if len(named) > 1 and len([g for g in fl2 if g["name"] == f["name"]]) > 1 else named:
+                if m.get("line") is None or m.get("column") is None:
+                    missing = missing or ("root-opener:symbolset" if (f["item"] == 0 and f["name"] == "symbolset")
+                                          else "message-without-location:" + f["kind"])
+                    continue
+                # several faults / messages may share a name: the message must sit on one of the tokens that carry that name
+                cands = [first_tok[g["item"]] for g in fl2 if g["name"] == f["name"] and g["item"] in first_tok]
+                best = ti
+                for c in cands:
+                    pass
+                obs.append({"what": "message:" + f["kind"], "name": f["name"], "tok": ti + 1, "line": m["line"], "col": m["column"], "vals": []})
+                nmsg += 1
+        if len([1 for f in fl2]) != len(set(f["name"] for f in fl2)):
+            continue                    # two faults with one name: message <-> fault pairing is ambiguous, skip
+        ck.count()
+        rec = {"tid": "msg:%d" % j, "seps": [piece(x) for x in seps], "toks": [piece(x) for x in texts], "obs": obs, "missing": missing}
+        records.append(rec)
+        meta[rec["tid"]] = text
+        ck.nontrivial(["msg", text, fl2])
     if len(records) < 0.5 * len(bs):
         raise common.MachineryFailure("only %d of %d documents loaded" % (len(records), len(bs)))
     verdicts = tracecheck.validate("TracePositions", records, "c08", ck=ck, chunk=500)
@@ -185,5 +222,5 @@ def run(tier):
             ck.violation("C08|%s" % vd["verdict"], "recorded position differs from the token's position: %s" % vd["verdict"],
                          {"text": meta[tid]})
     ck.sample({"tid": records[0]["tid"], "obs": records[0]["obs"][:3], "text": meta[records[0]["tid"]][:300]})
-    return ck.finish(coverage_extra={"documents": len(records), "observations": sum(len(r["obs"]) for r in records),
+    return ck.finish(coverage_extra={"documents": len(records), "observations": sum(len(r["obs"]) for r in records), "message_locations": nmsg,
                                      "traces_validated_against_impl": len(verdicts)})
